@@ -1,8 +1,8 @@
 CONSTANT Threads = {1, 2, 3}
 CONSTANT NLanes = 3
 CONSTANT Values = {1, 2}
-CONSTANT InitCap = 2
-CONSTANT Reserve = FALSE
+CONSTANT InitCap = 1
+CONSTANT Reserve = TRUE
 CONSTANT InitBuckets = 2
 CONSTANT InitMaxSize = 0
 CONSTANT HashMul = 1
